@@ -142,6 +142,16 @@ def generate(rng, tier):
             ops.append({"op": "init", "cls": "D", "data": fill(rng.choice(D_TEMPLATES))})
         elif r < 0.45:
             ops.append({"op": "init", "cls": "FD", "data": rng.choice([{}, {"a": [1]}, {"a": "zz", "b": [2]}])})
+        elif r < 0.5:
+            # a positional mapping together with keyword arguments: Cls(data, **more)
+            d = fill(rng.choice(INIT_TEMPLATES[:7]))
+            more = {}
+            for key in list(d):
+                if key != "n" and rng.random() < 0.5:
+                    more[key] = d.pop(key)
+            if rng.random() < 0.5:
+                more["lst"] = rng.choice([[5], ["6"], ["zz"]])
+            ops.append({"op": "init_pos", "cls": rng.choice(["A", "D"]), "data": d, "more": more})
         elif r < 0.6:
             ops.append({"op": "call", **fill(rng.choice(F_TEMPLATES))})
         elif r < 0.7:
@@ -241,6 +251,16 @@ def _outcome(fn):
     return v, ["ok", kernel.canon_mapping_unordered(kernel.canon(v))]
 
 
+def _pos_inputs(op):
+    data = _val(op["data"])
+    more = _val(op["more"])
+    if op["cls"] == "D":    # the smaller class declares fewer fields
+        keep = ("n", "lst", "dct", "raw", "fl", "leaf")
+        more = {key: x for key, x in more.items() if key in keep}
+        data = {key: x for key, x in data.items() if key in keep}
+    return data, more
+
+
 def run_op(world, op, inputs_out=None):
     """Returns (value or None, outcome). inputs_out collects the caller-side input objects."""
     k = op["op"]
@@ -252,6 +272,13 @@ def run_op(world, op, inputs_out=None):
         if op["cls"] == "D":
             return _outcome(lambda: cls(**data))
         return _outcome(lambda: cls.__from__(data))
+    if k == "init_pos":
+        data, more = _pos_inputs(op)
+        if inputs_out is not None:
+            inputs_out.append(data)
+            inputs_out.append(more)
+        cls = world.get(op["cls"])
+        return _outcome(lambda: cls(data, **more))
     if k == "call":
         args = _val(op["args"])
         kw = _val(op["kw"])
@@ -379,6 +406,8 @@ def execute(plan):
             results.pop(0)
         # P1: inputs unchanged (compare with a freshly built copy of the same plan values)
         fresh_inputs = []
+        if k == "init_pos":
+            fresh_inputs = list(_pos_inputs(snap_op))
         if k == "init" or k == "local":
             fresh_inputs = [_val(snap_op["data"])]
         elif k == "call":
@@ -419,7 +448,7 @@ def execute(plan):
             res.stats["probe:other_module_same_names"] += 1
         if k == "local":
             res.stats["probe:local_class"] += 1
-        if k in ("init", "call") and out[0] == "ok":
+        if k in ("init", "init_pos", "call") and out[0] == "ok":
             res.stats["probe:default_taken"] += 1
         if res.violations:
             break
